@@ -55,7 +55,7 @@ class Gaussian(Distribution):
         If a scalar or 1d-array, the value defines the diagonal entries of the precision matrix.
 
     sqrtcov : scalar, 1d-array or 2d-array (sparse matrix is supported)
-        Square root of covariance matrix of Gaussian. Defined as matrix R, where R.T@R = cov.
+        Square root of covariance matrix of Gaussian. Defined as matrix R, where R@R.T = cov.
         If a scalar or 1d-array the value is assumed to be the standard deviation of each component of the Gaussian.
 
     sqrtprec : scalar or 1d-array or 2d-array (sparse matrix is supported)
